@@ -22,10 +22,12 @@ RULE = ("Engine F: generated factories over the widest grammar (sources, machine
         "different edge kinds and a zero delay or same-instant tie (>= 2 store operations on different edges in one instant); "
         "history with >= 6 put/get/cancel operations.")
 RULE += (" Two in ten flow-shaped factories also contain rework loops (a machine feeding itself or a machine of an earlier layer through a "
-         "Buffer / Fleet edge with a strictly positive delay / transit time, so no zero-time cycle exists); machine oracles work per visit, not per item.")
+         "Buffer / Fleet edge with a strictly positive delay / transit time, so no zero-time cycle exists); machine oracles work per visit, not per item. "
+         "One in ten factories is a chain or a rows x cols mesh built by the helpers of factorysimpy.constructs (the harness hands them factories "
+         "as node / edge classes and checks the wiring they produce against the documented topology).")
 ASSUMPTIONS = ["valid domain = constructor signatures and parameter documentation; explicit ValueError('Unsupported edge type') is a rejection, not a crash"]
 
-PROFILE = {"cycles": 2, "conveyors": True, "conveyor_to_sink": True, "conveyor_weight": 1, "pack": 2}
+PROFILE = {"cycles": 2, "constructs": 1, "conveyors": True, "conveyor_to_sink": True, "conveyor_weight": 1, "pack": 2}
 INVALID_KINDS = ["capacity_zero", "capacity_negative", "capacity_float", "buffer_mode", "negative_delay_edge",
                  "negative_delay_node", "negative_iat", "nonblocking_zero_iat", "missing_in_edge", "missing_out_edge",
                  "const_index_out_of_range_out", "const_index_out_of_range_in"]
